@@ -90,6 +90,11 @@ class ConfSpec:
                     v = getattr(BeartypeViolationVerbosity, v)
                 elif k.startswith('violation_') and k.endswith('type'):
                     v = VIOLATION_CLASSES[v]
+                elif k == 'hint_overrides':
+                    # given as ((source hint src, target hint src), ...)
+                    from beartype import FrozenDict
+                    from vlib import hints as _h
+                    v = FrozenDict({eval(a, _h.env()): eval(b, _h.env()) for a, b in v})
                 kw[k] = v
             self._conf = BeartypeConf(**kw)
         return self._conf
